@@ -347,6 +347,28 @@ class Exec:
             return ("obj", rec, [self.ev(a) for a in args])
         if k == "CXXScalarValueInitExpr":
             return 0
+        if k == "LambdaExpr":
+            # a closure: the call operator plus what it captured (references name the variables, copies are taken now)
+            if "fn" not in e:
+                raise AnalysisBroken("generic lambda at line %s not modelled" % e.get("l"))
+            caps = {}
+            for c in e.get("captures") or []:
+                if c.get("name") == "this" and "id" not in c:
+                    if not c.get("byref"):
+                        raise AnalysisBroken("lambda with a copy of *this at line %s" % e.get("l"))
+                    continue
+                if "id" not in c:
+                    raise AnalysisBroken("lambda capture not understood at line %s" % e.get("l"))
+                d = c["id"]
+                if c.get("byref"):
+                    caps[d] = ("ref", self.refs[d] if d in self.refs else ("envvar", self.env, d, c.get("name")))
+                elif d in self.refs:
+                    caps[d] = ("val", self.load(self.refs[d], e))
+                elif d in self.env:
+                    caps[d] = ("val", self.env[d])
+                else:
+                    raise AnalysisBroken("lambda captures the unbound variable %s at line %s" % (c.get("name"), e.get("l")))
+            return ("closure", e["fn"], caps)
         if k == "CXXNewExpr" and e.get("array"):
             n = self.ev(kids(e)[0]) if kids(e) else 0
             if not isinstance(n, int) or n < 0 or n > 100000:
@@ -425,6 +447,11 @@ class Exec:
             r = self.stubs[name](self, e)
             if r is not NotImplemented:
                 return r
+        if name == "operator()" and args and self.tu is not None:
+            a0 = strip_casts(args[0])
+            clo = self.env.get(a0["ref"]["id"]) if a0 is not None and a0["k"] == "DeclRefExpr" and a0["ref"]["id"] not in self.refs else None
+            if isinstance(clo, tuple) and len(clo) == 3 and clo[0] == "closure":
+                return self._call_closure(clo, args[1:], e)
         if name in self.inline and self.tu is not None:
             callee = self.tu.by_did.get(e["callee"]["did"])
             if callee is None or callee.body is None:
@@ -541,11 +568,23 @@ class Exec:
         base = ty[:-1].rstrip()
         return not (base.endswith("const") or ("*" not in base and base.startswith("const ")))
 
-    def _inline(self, callee, actual):
+    def _call_closure(self, clo, actual, e):
+        """call of a local lambda: its body runs with the parameters, the by-reference captures naming the captured
+        variables and the by-value captures holding the copies taken when the closure was made"""
+        callee = self.tu.by_did.get(clo[1])
+        if callee is None or callee.body is None or e["callee"].get("did") != clo[1]:
+            raise AnalysisBroken("body of the lambda called at line %s not available" % e.get("l"))
+        if self._depth >= 6:
+            raise AnalysisBroken("lambda calls nested too deeply at line %s" % e.get("l"))
+        refs = {d: c[1] for d, c in clo[2].items() if c[0] == "ref"}
+        vals = {d: c[1] for d, c in clo[2].items() if c[0] == "val"}
+        return self._inline(callee, actual, extra_refs=refs, extra_vals=vals)
+
+    def _inline(self, callee, actual, extra_refs=None, extra_vals=None):
         if len(actual) != len(callee.params) or any(a is None or a["k"] == "DefaultArg" for a in actual):
             raise AnalysisBroken("call to %s() with default or variadic arguments not modelled" % callee.name)
         saved = self.env
-        bound, env = {}, {}
+        bound, env = dict(extra_refs or {}), dict(extra_vals or {})
         for p, a in zip(callee.params, actual):
             if self._mutable_ref(p.get("ty")):
                 l = self.lv(a)                      # the parameter names the caller's object
@@ -559,11 +598,16 @@ class Exec:
         self.refs.update(bound)
         self._depth += 1
         try:
-            for st in kids(callee.body):
-                self.stmt(st)
-            ret = None
-        except _Return as r:
-            ret = r.v
+            try:
+                for st in kids(callee.body):
+                    self.stmt(st)
+                ret = None
+            except _Return as r:
+                ret = r.v
+            # a copy captured by a non-mutable lambda is const; a mutable lambda would keep the change for its next call
+            for d, v0 in (extra_vals or {}).items():
+                if env.get(d) is not v0 and env.get(d) != v0:
+                    raise AnalysisBroken("%s() changes a by-value capture" % callee.name)
         finally:
             self.env = saved
             self._depth -= 1
@@ -575,6 +619,17 @@ class Exec:
         return ret
 
     # ---- statements -------------------------------------------------------------------
+    def declare(self, v):
+        """one declarator of a DeclStmt / the condition variable of an if"""
+        if kids(v) and kids(v)[0] is not None and (v.get("isref") or (v.get("ty") or "").rstrip().endswith("&")) and \
+                not (v.get("ty") or "").startswith("const ") and strip_casts(kids(v)[0]).get("lv", True) and \
+                strip_casts(kids(v)[0])["k"] in ("ArraySubscriptExpr", "MemberExpr", "UnaryOperator", "DeclRefExpr"):
+            self.refs[v["did"]] = self.lv(kids(v)[0])          # a reference local names the object
+        elif kids(v) and kids(v)[0] is not None:
+            self.env[v["did"]] = self.ev(kids(v)[0])
+        else:
+            self.env[v["did"]] = ("uninit", v.get("name"))
+
     def stmt(self, s):
         if s is None:
             return
@@ -584,16 +639,21 @@ class Exec:
                 self.stmt(c)
         elif k == "DeclStmt":
             for v in kids(s):
-                if kids(v) and kids(v)[0] is not None and (v.get("isref") or (v.get("ty") or "").rstrip().endswith("&")) and \
-                        not (v.get("ty") or "").startswith("const ") and strip_casts(kids(v)[0]).get("lv", True) and \
-                        strip_casts(kids(v)[0])["k"] in ("ArraySubscriptExpr", "MemberExpr", "UnaryOperator", "DeclRefExpr"):
-                    self.refs[v["did"]] = self.lv(kids(v)[0])          # a reference local names the object
-                elif kids(v) and kids(v)[0] is not None:
-                    self.env[v["did"]] = self.ev(kids(v)[0])
-                else:
-                    self.env[v["did"]] = ("uninit", v.get("name"))
+                self.declare(v)
         elif k == "IfStmt":
             c, t, e = kids(s)
+            # if (init; cond) and if (T x = e): the init statement runs first, then the condition variable is declared
+            # (both are in scope in either branch); the condition proper is the converted value of the variable
+            if isinstance(s.get("init"), dict):
+                self.stmt(s["init"])
+            elif "init" in s:
+                raise AnalysisBroken("if with an init statement that is not available at line %s" % s.get("l"))
+            if isinstance(s.get("condvar"), dict):
+                if s["condvar"].get("k") != "VarDecl":
+                    raise AnalysisBroken("condition variable not understood at line %s" % s.get("l"))
+                self.declare(s["condvar"])
+            elif "condvar" in s:
+                raise AnalysisBroken("if with a condition variable that is not available at line %s" % s.get("l"))
             if self.truth(self.ev(c)):
                 self.stmt(t)
             else:
